@@ -86,6 +86,11 @@ def build(desc):
             names.append(nm)
         mets[(a["name"],)] = names
     ctor = {k: v for k, v in desc["ctor"].items() if v is not None or k == "periodic"}
+    if desc.get("lazy_metrics"):
+        # the grid dataset itself is dask-backed (as after open_dataset(chunks=...)): the metrics are lazy arrays
+        # (one chunk per variable: how a metric chunked *along the operated axis* should interact with unchunked
+        # data is not part of any statement - it fails today in the metric_weighted path - and is not drawn)
+        ds = ds.chunk({d: -1 for d in ds.dims})
     g = Grid(ds, coords=gen.layout_coords(desc["layout"]), autoparse_metadata=False, metrics=mets, **ctor)
     return ds, g
 
